@@ -173,6 +173,18 @@ pub fn draw_line<T: Copy>(mut image: NdTensorViewMut<T, 2>, line: Line, value: T
         let img_height: i32 = image.rows().try_into().unwrap();
         let img_width: i32 = image.cols().try_into().unwrap();
 
+        // A line that lies entirely outside the image has no visible pixels.
+        // Clamping its endpoints would otherwise move it onto the nearest
+        // edge of the image.
+        let bounds = line.bounding_rect();
+        if bounds.bottom() < 0
+            || bounds.top() >= img_height
+            || bounds.right() < 0
+            || bounds.left() >= img_width
+        {
+            return;
+        }
+
         let start = clamp_to_bounds(line.start, img_height, img_width);
         let end = clamp_to_bounds(line.end, img_height, img_width);
         let clamped = Line::from_endpoints(start, end);
